@@ -1,7 +1,25 @@
 import SqlframeModel.Codec.Basic
 import SqlframeModel.Props.C03
+import SqlframeModel.Props.C03Text
+import SqlframeModel.Props.C03Agg
 namespace Sqlframe
 open Lean
 deriving instance FromJson, ToJson for Prog
 deriving instance ToJson for Cte
+deriving instance FromJson, ToJson for Route
+deriving instance FromJson, ToJson for InnerBlock
+
+structure AggCase where
+  keys : List String
+  route : Route
+  deriving FromJson
+
+def nodeJson : Option Gen.FnNode → Json
+  | some (.typed c) => Json.mkObj [("kind", "typed"), ("name", toJson c)]
+  | some (.anonymous n) => Json.mkObj [("kind", "anonymous"), ("name", toJson n)]
+  | none => Json.mkObj [("kind", "unknown"), ("name", Json.null)]
+
+def itemJson (i : AggItem) : Json :=
+  Json.mkObj [("fn", toJson i.fn), ("node", nodeJson i.node), ("arg", toJson i.arg), ("alias", toJson i.alias),
+              ("typedAgg", toJson i.typedAgg)]
 end Sqlframe
